@@ -122,6 +122,19 @@ def history_oracle(cfg, rng, seed_base):
         base[j] = rng.uniform(lo[j], up[j])
         pts.append(sharpen(names, base) if sharp else base)
     hist = [rng.randrange(len(pts)) for _ in range(rng.randint(16, 48))]
+    # the optional distance table of likelihood() is an input like the vector: the same vector with a table, with another
+    # table and without one are three different points; each is visited right after its table-less twin and after others
+    tabs = {}
+    inside_idx = [i for i, x in enumerate(pts) if all(a <= v <= b for v, a, b in zip(x, lo, up))]
+    for _ in range(rng.randint(1, 3) if inside_idx else 0):
+        bi = rng.choice(inside_idx)
+        kw0 = dict(zip(names, pts[bi]))
+        if rng.random() < 0.5:
+            kw0["h0"] = kw0.get("h0", 70.0) * 0.8
+        pts.append(list(pts[bi]))
+        tabs[len(pts) - 1] = c02.tabulated(cl, kw0)
+        other = rng.randrange(len(pts) - 1)
+        hist += [bi, len(pts) - 1, other, len(pts) - 1, bi]
     first = {}
     values = []
     for step, pi in enumerate(hist):
@@ -135,7 +148,7 @@ def history_oracle(cfg, rng, seed_base):
         np.random.seed(seed)
         try:
             with np.errstate(all="ignore"):
-                v = float(np.squeeze(cl.likelihood(arg)))
+                v = float(np.squeeze(cl.likelihood(arg, kwargs_cosmo_interp=tabs[pi]) if pi in tabs else cl.likelihood(arg)))
         except Exception as e:  # noqa
             fails.append("call %d raised %s: %s" % (step, err_enum(e), str(e)[:80]))
             break
@@ -162,12 +175,13 @@ def history_oracle(cfg, rng, seed_base):
             for pi, x in enumerate(pts):
                 if pi not in first:
                     continue
+                kwt = {"kwargs_cosmo_interp": tabs[pi]} if pi in tabs else {}
                 np.random.seed(seed_base + pi)
                 with np.errstate(all="ignore"):
-                    v2 = float(np.squeeze(cl2.likelihood(list(x))))
+                    v2 = float(np.squeeze(cl2.likelihood(list(x), **kwt)))
                 np.random.seed(seed_base + pi)
                 with np.errstate(all="ignore"):
-                    v1 = float(np.squeeze(cl.likelihood(list(x))))
+                    v1 = float(np.squeeze(cl.likelihood(list(x), **kwt)))
                 if not (v1 == v2 or (math.isnan(v1) and math.isnan(v2))):
                     fails.append("%s copy returns %r, original %r" % (how, v2, v1))
                     break
@@ -301,8 +315,10 @@ def run(ctx, res):
     lines, meta = [], []
     for t in range(n):
         cfg = gen_history_cfg(rng)
+        import random as _random
+        hseed, sbase = rng.randrange(2 ** 30), ctx.np_seed() % (2 ** 30)
         try:
-            fails, info = history_oracle(cfg, rng, ctx.np_seed() % (2 ** 30))
+            fails, info = history_oracle(cfg, _random.Random(hseed), sbase)
         except Exception as e:  # noqa
             res.notes.append("history could not be run: %r" % (e,))
             res.count("harness_fail")
@@ -316,7 +332,7 @@ def run(ctx, res):
                             tuple(info["hist"][:6])))
         for f in fails:
             res.violation("history:" + " ".join(f.split(" ")[:5]), f, {"kind": "history", "cfg": c02.enc(cfg, [0.0], "x")["cfg"], "mode": cfg["mode"],
-                                                                     "pts": info["pts"], "hist": info["hist"], "sharp": info["sharp"]})
+                                                                     "pts": info["pts"], "hist": info["hist"], "sharp": info["sharp"], "hseed": hseed, "seed_base": sbase})
         if len(res.samples) < 2:
             res.sample({"types": [lt for _, lt, _ in cfg["lenses"]], "mode": cfg["mode"], "sharp": info["sharp"], "history": info["hist"],
                         "values": info["values"][:8]})
@@ -392,5 +408,5 @@ def replay(ctx, data):
     cfg = c07.dec(inp["cfg"])
     cfg["lenses"] = [tuple(l) for l in cfg["lenses"]]
     cfg["mode"] = inp["mode"]
-    fails, _ = history_oracle(cfg, rng, 12345)
+    fails, _ = history_oracle(cfg, random.Random(inp["hseed"]) if "hseed" in inp else rng, inp.get("seed_base", 12345))
     return bool(fails), "history oracle: %s" % (fails or "holds")
